@@ -229,7 +229,7 @@ theorem rebuiltOf_maxLevel (md : ModelDef) (g : List (String × Store)) (k : Str
   · rfl
 
 theorem buildRoleLinks_eq (e : Enf) (hi : Casbin.Inv e) :
-    e.buildRoleLinks = ({ e with rm := e.rm.map (fun x => (x.1, rebuiltOf e.md e.g x.1 x.2)) }, true) := by
+    e.buildRoleLinks = ({ e.invalidate with rm := e.rm.map (fun x => (x.1, rebuiltOf e.md e.g x.1 x.2)) }, true) := by
   have hok : ∀ x ∈ e.rm, ∀ count kind s, e.md.g.lookup x.1 = some (count, kind) → e.g.lookup x.1 = some s →
       (x.2.clear.applyRules count true s.policy).2 = true := by
     intro x _ count kind s hd hs
@@ -237,6 +237,7 @@ theorem buildRoleLinks_eq (e : Enf) (hi : Casbin.Inv e) :
     exact (applyRules_add count s.policy x.2.clear
       (fun r hr => by rw [plainRule_length (g0.plain r hr)]; exact Nat.le_refl _) hinj.c2).1
   unfold Enf.buildRoleLinks
+  simp only [Enf.invalidate]
   rw [rebuildLinks_eq e.md e.rm e.g hok]
 
 /-- under the mirror invariant the rebuilt managers answer like the old ones -/
@@ -269,12 +270,12 @@ theorem buildRoleLinks_lev (e : Enf) (hi : Casbin.Inv e) (hl : Lev e) : Lev e.bu
   rw [← (h.2 gt ra rb ha hb).2.1]
   exact hl gt ra ha
 
-theorem buildRoleLinks_cache (e : Enf) : e.buildRoleLinks.1.cache = e.cache := rfl
+theorem buildRoleLinks_cache (e : Enf) : e.buildRoleLinks.1.cache = [] := rfl
 
-theorem buildRoleLinks_cf (e : Enf) (hi : Casbin.Inv e) (hc : CF e) : CF e.buildRoleLinks.1 := by
+theorem buildRoleLinks_cf (e : Enf) (_hi : Casbin.Inv e) (_hc : CF e) : CF e.buildRoleLinks.1 := by
   intro key snap hl
   rw [buildRoleLinks_cache] at hl
-  exact (hc key snap hl).trans (buildRoleLinks_rmeq e hi)
+  simp at hl
 
 /-! ### one management call -/
 
